@@ -6,10 +6,10 @@ a=$1; b=$2; shift 2
 props=${@:-C05 C12 C13 C14 C15 C18 C20}
 out=/verif/scratch/sweep; mkdir -p $out/scratch $out/bin
 # private copies, so that rebuilding /verif/target meanwhile does not disturb the sweep
-cp /verif/target/debug/vsim /verif/target/debug/scrut $out/bin/
+cp /verif/target/debug/vsim /verif/target/debug/scrut /verif/known-findings.json $out/bin/
 for s in $(seq $a $b); do
   for p in $props; do
-    VERIF_SEED=$s VSIM_OUT=$out VSIM_SCRATCH=$out/scratch VSIM_SCRUT_BIN=$out/bin/scrut VSIM_THREADS=${VSIM_THREADS:-6} $out/bin/vsim check $p quick > $out/$p.$s.log 2>&1
+    VERIF_SEED=$s VSIM_OUT=$out VSIM_SCRATCH=$out/scratch VSIM_KNOWN=$out/bin/known-findings.json VSIM_SCRUT_BIN=$out/bin/scrut VSIM_THREADS=${VSIM_THREADS:-6} $out/bin/vsim check $p quick > $out/$p.$s.log 2>&1
     rc=$?
     if [ $rc -ne 0 ]; then echo "seed=$s $p rc=$rc"; grep -E "^VIOLATION|^HARNESS|^vsim: [0-9]+ x" $out/$p.$s.log | cut -c1-400; fi
   done
